@@ -12,6 +12,10 @@ def isinstance_branches(fn, var):
     for n in walk_no_nested(fn):
         if isinstance(n, ast.If):
             t = n.test
+            if isinstance(t, ast.BoolOp) and isinstance(t.op, ast.And):
+                cands = [v for v in t.values if isinstance(v, ast.Call) and call_name(v) == "isinstance" and len(v.args) == 2 and norm(v.args[0]) == var]
+                if len(cands) == 1:
+                    t = cands[0]
             if isinstance(t, ast.Call) and call_name(t) == "isinstance" and len(t.args) == 2 and norm(t.args[0]) == var:
                 cl = t.args[1]
                 elts = cl.elts if isinstance(cl, ast.Tuple) else [cl]
@@ -169,12 +173,15 @@ def sink_of(project, fn, read_node, depth=0):
     wraps = []
     p = getattr(node, "_parent", None)
     while p is not None:
+        if isinstance(p, ast.keyword):
+            p = getattr(p, "_parent", None)
+            continue
         if isinstance(p, ast.Call) and any(a is node for a in p.args) or (isinstance(p, ast.Call) and any(k.value is node for k in p.keywords)):
             prm = ctor_param(project, fn, p, node)
             ch = attr_chain(p.func) or ""
             r = project.resolve_name(fn._module, ch) if ch and hasattr(fn, "_module") else None
             if isinstance(r, ast.ClassDef) and prm:
-                out.add(("param", prm))
+                out.add(("param", param_field(project, r, prm)))
                 return out
             if last_name(p) in ("add_symbol", "add_field") and prm:
                 out.add(("param", prm))
@@ -188,13 +195,72 @@ def sink_of(project, fn, read_node, depth=0):
                     out.add(("attr", t.attr))
                 elif isinstance(t, ast.Name) and depth < 3:
                     # follow the local to its uses
-                    for u in walk_no_nested(fn):
-                        if isinstance(u, ast.Name) and u.id == t.id and isinstance(u.ctx, ast.Load) and u is not t:
-                            out |= sink_of(project, fn, u, depth + 1)
+                    for u in _later_uses(p, t.id):
+                        out |= sink_of(project, fn, u, depth + 1)
                     if not out:
                         out.add(("local", t.id))
             return out
         if isinstance(p, (ast.stmt,)):
             return out
         node, p = p, getattr(p, "_parent", None)
+    return out
+
+
+def param_field(project, cls, param):
+    """name of the attribute that constructor parameter `param` is stored in
+    (self.F = param in an __init__ along the MRO), else the parameter name"""
+    for c in project.mro(cls):
+        for st in c.body:
+            if isinstance(st, ast.FunctionDef) and st.name == "__init__" and param in params_of(st):
+                for n in walk_no_nested(st):
+                    if isinstance(n, ast.Assign) and isinstance(n.value, ast.Name) and n.value.id == param:
+                        for t in n.targets:
+                            if isinstance(t, ast.Attribute) and isinstance(t.value, ast.Name) and t.value.id == "self":
+                                return t.attr
+                # passed up to super().__init__(param, ...) : keep looking in bases with the same name
+                return param if not any(isinstance(n, ast.Call) and attr_chain(n.func) == "super().__init__" for n in ast.walk(st)) else _super_field(project, c, st, param)
+    return param
+
+
+def _super_field(project, cls, init, param):
+    for n in ast.walk(init):
+        if isinstance(n, ast.Call) and isinstance(n.func, ast.Attribute) and n.func.attr == "__init__" and isinstance(n.func.value, ast.Call) and attr_chain(n.func.value.func) == "super":
+            for i, a in enumerate(n.args):
+                if isinstance(a, ast.Name) and a.id == param:
+                    for b in project.bases(cls):
+                        binit = project.find_method(b, "__init__")
+                        if binit is not None:
+                            ps = params_of(binit)[1:]
+                            if i < len(ps):
+                                owner = enclosing_class(binit)
+                                return param_field(project, owner if owner is not None else b, ps[i])
+    return param
+
+
+def enclosing_class(fn):
+    p = getattr(fn, "_parent", None)
+    while p is not None and not isinstance(p, ast.ClassDef):
+        p = getattr(p, "_parent", None)
+    return p
+
+
+def _later_uses(assign, name):
+    """Load uses of `name` in the statements that follow `assign` in its own
+    statement list (up to the next re-assignment of the name)."""
+    parent = getattr(assign, "_parent", None)
+    body = None
+    for field in ("body", "orelse", "finalbody"):
+        b = getattr(parent, field, None)
+        if isinstance(b, list) and any(x is assign for x in b):
+            body = b
+    if body is None:
+        return []
+    idx = [i for i, x in enumerate(body) if x is assign][0]
+    out = []
+    for st in body[idx + 1:]:
+        for u in ast.walk(st):
+            if isinstance(u, ast.Name) and u.id == name and isinstance(u.ctx, ast.Load):
+                out.append(u)
+        if isinstance(st, ast.Assign) and any(isinstance(t, ast.Name) and t.id == name for t in st.targets):
+            break
     return out
